@@ -142,18 +142,95 @@ class ObsAdapter:
             return sorted(ids)
 
 
+class MapFileAdapter:
+    """files.MapAccessFile over a real file; keys 1..3 are "k1".. (dict / str index) or the ints themselves (int index)"""
+    LINES = {1: "first line", 2: "", 3: "third \u017elu\u0165 \u20ac line"}
+
+    def __init__(self, f):
+        self.f = f
+
+    def new_world(self):
+        os.makedirs(tlc.WORK, exist_ok=True)
+        import tempfile
+        return {"dir": tempfile.mkdtemp(prefix="mapf_", dir=tlc.WORK), "m": None, "src": 0, "off": {}}
+
+    def close(self, w):
+        import shutil
+        try:
+            if w["m"] is not None:
+                w["m"].close()
+        except Exception:
+            pass
+        shutil.rmtree(w["dir"], ignore_errors=True)
+
+    def key(self, w, k):
+        return k if w["src"] == 3 else "k%d" % k
+
+    def obs(self, w):
+        m = w["m"]
+        if m is None:
+            return {"phase": "none", "n": 0, "src": 0}
+        return {"phase": "open" if m.file is not None else "closed", "n": len(m), "src": w["src"]}
+
+    @wrap
+    def apply(self, w, op):
+        n, m = op["op"], w["m"]
+        if n == "new":
+            path = os.path.join(w["dir"], "data.txt")
+            pos = 0
+            with open(path, "wb") as fh:
+                for i in (1, 2, 3):
+                    w["off"][i] = pos
+                    b = (self.LINES[i] + "\n").encode("utf-8")
+                    fh.write(b)
+                    pos += len(b)
+            w["src"] = op["src"]
+            pairs = [(self.key(w, k), w["off"][line]) for k, line in op["ps"]]
+            if op["src"] == 1:
+                w["m"] = self.f.MapAccessFile(path, dict(pairs))
+            else:
+                ipath = os.path.join(w["dir"], "data.index")
+                with open(ipath, "w", newline="") as fh:
+                    fh.write("key\tfile_line_offset\n")
+                    for k, o in pairs:
+                        fh.write("%s\t%d\n" % (k, o))
+                w["m"] = self.f.MapAccessFile(path, ipath, key_type=int if op["src"] == 3 else str)
+            return []
+        if n == "open":
+            if m.open() is not m:
+                raise Unexpected("open() does not return the object")
+            return []
+        if n == "close":
+            m.close(); return []
+        if n == "len":
+            return [len(m)]
+        if n == "get":
+            try:
+                line = m[self.key(w, op["k"])]
+            except KeyError:
+                return []
+            except RuntimeError:
+                return [-1]
+            inv = {v + "\n": k for k, v in self.LINES.items()}
+            if line not in inv:
+                raise Unexpected("a line that is not in the file came out: %r" % (line[:40],))
+            return [inv[line]]
+
+
 def run(ctx):
     import windpyutils.generic as g
     import windpyutils.structures.data_classes as dc
     import windpyutils.design_patterns as dp
-    for m in (g, dc, dp):
+    import windpyutils.files as fl
+    for m in (g, dc, dp, fl):
         importlib.reload(m)
-    ctx.rule = "growth beyond the listed properties: TLC's complete transition relation of three further specifications walked on the real classes"
+    ctx.rule = "growth beyond the listed properties: TLC's complete transition relation of four further specifications (RoundSequence, AttributeDrivenDictionary, Observable, MapAccessFile) walked on the real classes"
     jobs = (
         ("RoundSequence", os.path.join(D, "RoundSequence.tla"), {"Elems": "{1,2,3}", "MaxLen": 3}, [], ["Cyclic"], RoundAdapter(g)),
         ("AttrDict", os.path.join(D, "AttrDict.tla"), {"Keys": "{1,2,3,4,5,6,7}", "Valid": "{1,2,3}", "Vals": "{10,20}"}, [], ["ItemAssignmentValidates"],
          AttrAdapter(dc.AttributeDrivenDictionary)),
         ("Observable", os.path.join(D, "Observable.tla"), {"Tags": "{1,2}", "Observers": "{1,2,3}"}, [], ["FireCallsRegistered"], ObsAdapter(dp)),
+        ("MapFile", os.path.join(D, "MapFile.tla"), {"Keys": "{1,2,3}", "NLines": 3}, [], ["ReadsFollowTheMapping"], MapFileAdapter(fl)),
     )
     for name, spec, consts, invs, props, ad in jobs:
         model.mc(spec, consts, ctx, name, invariants=invs, properties=props)
